@@ -610,6 +610,21 @@ func c17mCase(rt *rapid.T, rec *vh.Recorder) (kind, msg string) {
 				}
 			}
 		}
+		// Element edits of one array: the model treats arrays as atomic, the implementation
+		// compares them element by element; the two agree unless one side's element edits are a
+		// leading part of the other's with equal values. New values carry the side's tag, so that
+		// can only happen through the "identical edit" mode below, which therefore copies an
+		// element edit only when it is the left side's only edit of that array, and then leaves
+		// the array alone on the right side.
+		isElem := func(e c17mEdit) bool { return e.kind == "elem" || e.kind == "append" }
+		leftArr := map[string]int{}
+		for _, e := range lEdits {
+			if isElem(e) {
+				leftArr[e.loc.String()]++
+			}
+		}
+		rightArr := map[string]bool{}
+		frozen := map[string]bool{}
 		nR := rapid.IntRange(0, 5).Draw(rt, "nright")
 		for i := 0; i < nR; i++ {
 			var e c17mEdit
@@ -618,12 +633,24 @@ func c17mCase(rt *rapid.T, rec *vh.Recorder) (kind, msg string) {
 			case mode < 2 && len(lEdits) > 0:
 				// the identical edit
 				e = lEdits[rapid.IntRange(0, len(lEdits)-1).Draw(rt, "same")]
+				if isElem(e) {
+					if leftArr[e.loc.String()] != 1 || rightArr[e.loc.String()] {
+						continue
+					}
+					frozen[e.loc.String()] = true
+				}
 			case mode < 6 && len(lEdits) > 0:
 				// same location, ancestor or descendant of a left edit
 				le := lEdits[rapid.IntRange(0, len(lEdits)-1).Draw(rt, "near")]
 				e = c17mGenEdit(rt, ro, c17mRelated(rt, locs, le.loc), "R", i)
 			default:
 				e = c17mGenEdit(rt, ro, locs[rapid.IntRange(0, len(locs)-1).Draw(rt, "rloc")], "R", i)
+			}
+			if isElem(e) {
+				if frozen[e.loc.String()] && rightArr[e.loc.String()] {
+					continue
+				}
+				rightArr[e.loc.String()] = true
 			}
 			if e.apply(ro) {
 				editsR = append(editsR, e.String())
